@@ -2888,9 +2888,10 @@ impl Interpreter {
 
         // Set the generator's environment as the current environment
         self.env = gen_env;
-        if let Some(guard) = env_guard {
-            self.push_env_guard(guard);
-        }
+        // Keep a freshly created environment rooted for the duration of this call only.
+        // Afterwards it is reachable from the generator state (`func_env`), so it must not
+        // be pushed onto `env_guards`, where nothing would ever pop it again.
+        let _env_guard = env_guard;
 
         let vm_guard = self.heap.create_guard();
 
